@@ -95,7 +95,16 @@ func ruleR11(c *Ctx) {
 					}
 				}
 				if l := launchByStmt[gs]; l != nil && l.Root != nil && subscribesSync(p, l.Root, 0) {
-					watches = append(watches, ev{pt, gs, false, "go " + l.Root.QName() + " (subscribes inside the new goroutine)"})
+					// a goroutine is a watcher of an instance only if it is handed that instance
+					handed := false
+					for _, a := range gs.Call.Args {
+						if n := namedOf(in.TypeOf(a)); n != nil && (n.Obj().Name() == "Process" || n.Obj().Name() == "subProcess") {
+							handed = true
+						}
+					}
+					if handed || l.Root.Lit != nil {
+						watches = append(watches, ev{pt, gs, false, "go " + l.Root.QName() + " (subscribes inside the new goroutine)"})
+					}
 				}
 				continue
 			}
